@@ -129,6 +129,39 @@ int Base64BinaryDatatypeValidator::compare(const XMLCh* const lValue
 }
 
 /***
+ * 3.2.16.2 Canonical representation
+ *
+ * The canonical lexical form of a base64Binary data value is the base64
+ * encoding of the value which contains no white space at all.
+ ***/
+const XMLCh* Base64BinaryDatatypeValidator::getCanonicalRepresentation(const XMLCh*         const rawData
+                                                                     ,       MemoryManager* const memMgr
+                                                                     ,       bool                 toValidate) const
+{
+    MemoryManager* toUse = memMgr? memMgr : getMemoryManager();
+
+    if (toValidate)
+    {
+        Base64BinaryDatatypeValidator* temp = (Base64BinaryDatatypeValidator*) this;
+
+        try
+        {
+            temp->checkContent(rawData, 0, false, toUse);
+        }
+        catch (...)
+        {
+            return 0;
+        }
+    }
+
+    // the empty string is the (canonical) literal of the empty octet sequence
+    if (!rawData || !*rawData)
+        return XMLString::replicate(rawData, toUse);
+
+    return Base64::getCanonicalRepresentation(rawData, toUse, Base64::Conf_Schema);
+}
+
+/***
  * Support for Serialization/De-serialization
  ***/
 
